@@ -72,8 +72,10 @@ def r06_3(prog, out):
     R = roles(prog)
     kinds = signal_kind(prog, R)
     loops = find_consumer_loops(prog)
-    if len(loops) < 2:
+    if len(loops) < 1:
         raise CheckBroken("expected 2 consumer loops, found %d" % len(loops))
+    if len(loops) < 2:
+        out.undecided("consumer-loops", "", "only %d consumer loop found (a consumer that pulls and waits without looping is judged by C15 R15.3 / C07 R07.4)" % len(loops))
     for cl in loops:
         bi = prog.info(cl.body)
         for n, a in enumerate(cl.waits):
@@ -89,7 +91,7 @@ def r06_3(prog, out):
                               "arriving between the empty pull and the wait is never signalled" % sorted(kinds))
 
 
-@rule("C06", "R06.4", "a wake-up leads to a pull on the same subscription", floor=2)
+@rule("C06", "R06.4", "a wake-up leads to a pull on the same subscription", floor=1)
 def r06_4(prog, out):
     loops = find_consumer_loops(prog)
     for cl in loops:
